@@ -5,11 +5,20 @@
    itself a representative and its own complement representative is the position's equality
    representative (wc of wc = eq); positions forced equal carry identical template codes and
    positions forced complementary carry complementary codes (C05_template_codes_agree).
-   The blank separators, the 1-based file encoding and the acceptance by the bundled binary are
-   decided per case: the Coq-extracted predicate contract_ok is evaluated on the real files, and a
-   sanitised spuriousSSM built from the working tree must accept them. *)
+   The whole per-position contract of the files is proved as well (C05_files_contract): for every
+   specification whose constraint generation returns arrays, in either layout, the 1-based / 0 / -1 /
+   blank encoding of the three arrays satisfies contract_ok - the model of spuriousSSM's
+   test_consistency and load_input_files: equal lengths, blanks with 0 and -1 exactly at the
+   uninitialised positions (the closure table is defined on keys only: propagate_dom), eq 1-based,
+   at most the position, idempotent and carrying the same code, wc within range, pointing at a
+   representative whose own wc is the position's eq and whose code is the complement.  For the strand
+   layout this holds of every loaded document (C05_loaded_files_contract).
+   Decided per case: that contract_ok is the binary's own check (the extracted predicate is evaluated on
+   the real files and a sanitised spuriousSSM built from the working tree must accept them), and the
+   number of blanks between strands and complexes. *)
 From Coq Require Import List String Ascii Arith.
-From PC Require Import Base.Codes Comp.Syntax Comp.Compile Design.Propagate Design.PropagateProofs Design.Designer Design.DesignerProofs Design.TemplateProofs.
+From PC Require Import Base.Codes Comp.Syntax Comp.Compile Design.Propagate Design.PropagateProofs Design.Designer Design.DesignerProofs Design.TemplateProofs
+  Design.ContractProofs Design.Loaded SSM.Contract.
 Import ListNotations.
 
 Definition exact_table (g : cgraph) (m : tbl) : Prop :=
@@ -41,3 +50,22 @@ Theorem C05_template_codes_agree : forall p so lay g, seed p so = OK (lay, g) ->
   (gconn g i false j -> ci = cj) /\ (gconn g i true j -> compl_code ci = Some cj).
 Proof. exact template_codes_agree. Qed.
 Print Assumptions C05_template_codes_agree.
+
+(* the files written by spurious_design.design satisfy the input contract, position by position *)
+Theorem C05_files_contract : forall p so lay g, seed p so = OK (lay, g) -> graph_ok g = true ->
+  forall e w s, get_constraints p so = DOk e w s -> contract_ok (map eq_map e) (map wc_map w) (map st_map s) = true.
+Proof. exact files_contract. Qed.
+Print Assumptions C05_files_contract.
+
+Theorem C05_loaded_files_contract : forall ls p lay g e w s, load_spec ls pspec0 = OK p -> seed p false = OK (lay, g) ->
+  get_constraints p false = DOk e w s -> contract_ok (map eq_map e) (map wc_map w) (map st_map s) = true.
+Proof. exact loaded_files_contract. Qed.
+Print Assumptions C05_loaded_files_contract.
+
+(* the closure table is defined on keys only *)
+Theorem C05_table_on_keys : forall eq wc U,
+  (forall y, In y U -> (forall z, In z (eq y) -> In z U) /\ (forall z, In z (wc y) -> In z U)) ->
+  (forall y z, In z (eq y) -> In y (eq z)) -> (forall y z, In z (wc y) -> In y (wc z)) ->
+  forall m, propagate eq wc U = OOk m -> forall y, get m y <> None -> In y U.
+Proof. exact propagate_dom. Qed.
+Print Assumptions C05_table_on_keys.
